@@ -750,6 +750,20 @@ def c01(rep, tier):
                 'steps of a macro defined in a file with a long name, which differ in the pass number at their end' % (
                     'shortened or rewritten' if bad and bad[1] not in ('strncmp', 'memcmp', 'strncasecmp', 'strcasecmp', 'compare', 'starts_with', 'ends_with', 'find', 'rfind') else 'compared in part only',
                     show(bad[0])[:60] if bad else ''), W(m, fv, bad[0] if bad else None))
+    # ... and is kept whole: the field that holds a register's name is a std::string (a fixed-size character array truncates long names - the
+    # names of macro temporaries carry file, line and pass number -, a string_view or pointer does not own the text)
+    try:
+        vreg = m.facts.record('VReg')
+        nf = [x for x in vreg['fields'] if x['name'] == 'name']
+        if not nf:
+            F.unknown('VReg::name', 'the register record has no field `name`')
+        else:
+            t_ = (nf[0].get('cty') or '').replace('const ', '')
+            F.check(t_.startswith(('std::basic_string<char', 'std::__cxx11::basic_string<char')) and 'string_view' not in t_, 'VReg::name', 'std::string: names of any length are kept and compared whole',
+                    'the name of a register is stored as %s: a name that does not fit is cut off (or not owned) and is never found again - every reference to one temporary allocates a new register, '
+                    'or two names share one' % t_, 'Compiler/src/gen.cpp', witness={'input': 'a macro with #n temporaries defined in a file whose name has 30 or more characters'})
+    except AnalysisBroken as ex_:
+        F.unknown('VReg::name', str(ex_))
     # vector of temporaries in the call sequence
     g = m.cfg(dvf)
     rels = [ev for ev in g.calls_to('FunctionGenState::releaseTemporary') if is_call(strip_casts(ev.e['args'][0]), '::operator[]')]
